@@ -1,0 +1,9 @@
+//go:build !verif
+// +build !verif
+
+// Package simhook provides yield points for deterministic simulation. Without
+// the verif build tag Yield is an empty function and key is never called.
+package simhook
+
+// Yield marks a scheduling point. It does nothing in normal builds.
+func Yield(point string, key func() string) {}
